@@ -166,6 +166,14 @@ class IterAnalysis:
         ok = False
         if isinstance(size, Int) and size.hi <= 16:
             ok = True
+        if not ok and size_lin is not None:
+            # sized by a slice returned from the specification (a declared path): static data, not stream data
+            for k, v in st.cells.items():
+                if k[0] == "H" and len(k) > 1 and k[1] == "ret" and isinstance(v, Arr) and isinstance(v.len, Int):
+                    if st.entails_le(size_lin - LinForm.var((k, ("len",)))):
+                        what = what + " (sized by specification data)"
+                        ok = True
+                        break
         mx = get_at(selfv, (self.ix["max_allowed_tag_size"],))
         cap = LinForm.var((cell, (self.ix["buffer"], "len")))
         if not ok and size_lin is not None:
@@ -179,6 +187,12 @@ class IterAnalysis:
                 # size <= max(limit, 16)
                 if st.entails_le(size_lin - m) or (isinstance(size, Int) and size.hi <= 16):
                     ok = True
+        if not ok and os.environ.get("VERIF_DEBUG_ALLOC"):
+            print("ALLOC?", fn, what, "size", size, "lin", size_lin, "max", mx)
+            for c in st.cons.le:
+                print("     ", repr(c).replace("('H', 'arg', 1), ", "self.")[:260])
+            for c in st.cons.eq:
+                print("    =", repr(c).replace("('H', 'arg', 1), ", "self.")[:260])
         self.note("ALLOC_BOUNDED", fn, "%s sized by stream data is bounded by the limit / capacity" % what.split("::")[-1], call.span, ok, st, call.frame)
 
     def on_aggregate(self, st, frame, rv, span):
@@ -250,7 +264,11 @@ class IterAnalysis:
 
         def setup(eng_, st, frame):
             r = st.cells[frame.cell(1)]
-            constrain_self(eng_, st, r.cell, ix, self.allowed_errors)
+            ae = self.allowed_errors if isinstance(self.allowed_errors, int) else None
+            mx = None
+            if self.allowed_errors == "limit":
+                mx = Enum("std::option::Option", {1: (Int(0, OFF, 64, False),)})
+            constrain_self(eng_, st, r.cell, ix, ae, mx)
             st.ghost["eof_seen"] = 0
         t0 = time.time()
         exits, frame = absrun.analyze(eng, body, None, setup)
@@ -610,7 +628,7 @@ def _reviewed_premises(ctx, rep):
                         if o.get("k") in ("copy", "move"):
                             l = o["place"]["local"]
                             names.add(bm.local_name(l))
-                            for st2 in bm.blocks[d]["stmts"]:
+                            for _b2, _i2, st2 in bm.statements():
                                 if st2["k"] == "assign" and st2["place"]["local"] == l and st2["rv"]["k"] == "use" and st2["rv"]["op"].get("k") in ("copy", "move"):
                                     names.add(bm.local_name(st2["rv"]["op"]["place"]["local"]))
                     if "position" in names:
